@@ -198,7 +198,17 @@ impl HistRep for AX {
     }
     fn extra_inits(n: usize) -> Vec<(String, Self, Abs)> {
         if n > 5 {
-            return Vec::new();
+            // word-boundary orders: other construction paths of a digraph that the window
+            // alphabet also reaches by add_arc from empty(n) (its last off-diagonal cell)
+            let one = Abs::from_arcs(n, [(n - 1, n - 2)]);
+            return vec![
+                ("From<arcs>".into(), AX::from(vec![(n - 1, n - 2)]), one.clone()),
+                ("From<AdjacencyList>".into(), AX::from(mk::<AL>(&one)), one.clone()),
+                ("From<EdgeList>".into(), AX::from(mk::<EL>(&one)), one.clone()),
+                ("From<AdjacencyMap>".into(), AX::from(mk::<AM>(&one)), one.clone()),
+                ("empty.complement.complement".into(), AX::empty(n).complement().complement(), Abs::empty(n)),
+                ("union with a smaller digraph".into(), AX::empty(n).union(&AX::empty(3)), Abs::empty(n)),
+            ];
         }
         let mut v = gen_inits::<AX>(n);
         let c = closed_form("cycle", n);
@@ -744,7 +754,7 @@ pub fn run_all(prop: &'static str, tier: &str, ctx: &mut Ctx) -> Value {
         outs.push(json!({"rep": AM::NAME, "closure": hist_json(&o)}));
     }
     // AdjacencyMatrix across 64-bit word boundaries
-    let ax_orders: &[usize] = if thorough { &[8, 9, 11, 12, 16, 23] } else { &[8, 9, 11] };
+    let ax_orders: &[usize] = if thorough { &[8, 9, 11, 12, 16, 23, 24, 32] } else { &[8, 9, 11, 16] };
     for &n in ax_orders {
         let pairs = ax_window(n);
         let ids: Vec<usize> = {
@@ -752,7 +762,7 @@ pub fn run_all(prop: &'static str, tier: &str, ctx: &mut Ctx) -> Value {
             s.insert(n);
             s.into_iter().collect()
         };
-        let m = model_for::<AX>(&format!("order {n}, window {pairs:?}"), fixed_inits::<AX>(n, false), ids, pairs, &[], true);
+        let m = model_for::<AX>(&format!("order {n}, window {pairs:?}"), fixed_inits::<AX>(n, true), ids, pairs, &[], true);
         let o = run_model::<AX>(prop, m, threads, ctx, true);
         tot_states += o.states;
         tot_trans += o.transitions;
